@@ -19,6 +19,8 @@ pub enum Pred {
     SeqGe(i64),
     FromEq(i64),
     PayloadLt(i64),
+    /// on B messages: payload length == k
+    BinLenEq(usize),
 }
 
 #[derive(Clone, Debug, PartialEq)]
@@ -69,7 +71,7 @@ pub fn gen_sel(rng: &mut Rng) -> SelScen {
             4 => Src::Recv(Kind::B),
             5 => Src::RecvAny,
             6 => Src::Filter(Pred::PayloadEq(rng.range(0, 9))),
-            7 => Src::Filter(match rng.below(3) { 0 => Pred::SeqGe(rng.range(0, 3)), 1 => Pred::FromEq(1 + rng.below(nh) as i64), _ => Pred::PayloadLt(rng.range(0, 10)) }),
+            7 => Src::Filter(match rng.below(5) { 0 => Pred::SeqGe(rng.range(0, 3)), 1 => Pred::FromEq(1 + rng.below(nh) as i64), 2 => Pred::PayloadLt(rng.range(0, 10)), _ => Pred::BinLenEq(1 + rng.below(3)) }),
             _ => Src::Timeout(*rng.pick(&[0u64, 1, 3, 10, 50])),
         };
         sources.push(s);
@@ -79,7 +81,11 @@ pub fn gen_sel(rng: &mut Rng) -> SelScen {
 }
 
 impl SelScen {
-    pub fn emit(&self) -> String {
+    pub fn emit(&self) -> String { self.emit_opts(false) }
+
+    /// `drop_all`: the selecting process returns a scalar, so every binary it held becomes
+    /// unreachable when its function returns (exposes counts that are too high).
+    pub fn emit_opts(&self, drop_all: bool) -> String {
         let mut steps = vec!["me0 = &.".to_string()];
         for (i, h) in self.helpers.iter().enumerate() {
             let id = i + 1;
@@ -101,13 +107,14 @@ impl SelScen {
             Src::Filter(Pred::SeqGe(k)) => format!("#'mi {{ [$.1, {}] __integer_compare__ {{ =-1 => [] | Ok }} }}", k),
             Src::Filter(Pred::FromEq(f)) => format!("#'mi {{ $.0 ={} }}", f),
             Src::Filter(Pred::PayloadLt(k)) => format!("#'mi {{ [$.2, {}] __integer_compare__ =-1 }}", k),
+            Src::Filter(Pred::BinLenEq(k)) => format!("#'mb {{ [$.2 __binary_length__, {}] __integer_compare__ =0 }}", k),
             Src::Timeout(d) => format!("{}", d),
         }).collect();
         steps.push(format!("x = ! [{}]", srcs.join(", ")));
         for d in 0..self.drains { steps.push(format!("d{} = !'msg", d)); }
         let mut ret = vec!["x".to_string()];
         for d in 0..self.drains { ret.push(format!("d{}", d)); }
-        steps.push(format!("[{}]", ret.join(", ")));
+        if drop_all { steps.push(format!("keep = [{}]", ret.join(", "))); steps.push("0".into()); } else { steps.push(format!("[{}]", ret.join(", "))); }
         format!("{}main = #{{\n  {}\n}},\nmain\n", crate::scen::PRELUDE, steps.join(",\n  "))
     }
 
@@ -118,13 +125,14 @@ impl SelScen {
             Src::Timeout(_) => true,
             Src::Recv(k) => self.helpers.iter().any(|h| h.sends.iter().take(h.fail_after.unwrap_or(usize::MAX)).any(|m| m.0 == *k)),
             Src::RecvAny => self.total_msgs > 0,
+            Src::Filter(Pred::BinLenEq(k)) => self.helpers.iter().any(|h| h.sends.iter().take(h.fail_after.unwrap_or(usize::MAX)).any(|m| m.0 == Kind::B && m.2.len() == *k)),
             Src::Filter(p) => self.helpers.iter().enumerate().any(|(i, h)| h.sends.iter().enumerate().take(h.fail_after.unwrap_or(usize::MAX)).any(|(seq, m)| m.0 == Kind::I && pred_accepts(p, i as i64 + 1, seq as i64, m.1))),
         })
     }
 }
 
 pub fn pred_accepts(p: &Pred, from: i64, seq: i64, payload: i64) -> bool {
-    match p { Pred::PayloadEq(k) => payload == *k, Pred::SeqGe(k) => seq >= *k, Pred::FromEq(f) => from == *f, Pred::PayloadLt(k) => payload < *k }
+    match p { Pred::PayloadEq(k) => payload == *k, Pred::SeqGe(k) => seq >= *k, Pred::FromEq(f) => from == *f, Pred::PayloadLt(k) => payload < *k, Pred::BinLenEq(_) => false }
 }
 
 fn msg_parts(cv: &CV) -> Option<(Kind, i64, i64, Option<i64>)> {
@@ -145,6 +153,7 @@ fn src_accepts(s: &Src, m: &CV) -> bool {
     match s {
         Src::Recv(k) => *k == kind,
         Src::RecvAny => true,
+        Src::Filter(Pred::BinLenEq(k)) => kind == Kind::B && matches!(m, CV::Tuple(_, fs) if matches!(&fs[2].1, CV::Bin(b) if b.len() == *k)),
         Src::Filter(p) => kind == Kind::I && payload.map(|pl| pred_accepts(p, from, seq, pl)).unwrap_or(false),
         _ => false,
     }
@@ -363,7 +372,25 @@ pub fn run_one(sc: &SelScen, bc: &quiver_core::bytecode::Bytecode, b: &qv::Built
     let mon = Rc::new(RefCell::new(SelMon { root: st.pid, sources: sc.sources.clone(), ..Default::default() }));
     sim.observer = Some(Box::new(SharedMon(mon.clone())));
     let mut rng = Rng::new(cfg.seed);
-    let end = sim.run(cfg.strat, cfg.qp, &mut rng, 100_000, &|| false, &mut |_s| false);
+    // Directed family (one schedule in four): hold everything back while the selecting process runs
+    // until it is in the middle of a filter call, then make every pending command/event visible at
+    // once — "arrivals between re-entries", including the batch that makes two sources ready.
+    let directed = cfg.seed % 4 == 1;
+    let root = st.pid;
+    let mut end = if directed {
+        let mut hit = false;
+        let e = sim.run(Strategy::StarveEnv, QuantumPolicy::Fixed(1), &mut rng, 100_000, &|| false, &mut |s: &mut Sim| {
+            let mid = s.process(root).and_then(|p| p.select_state.as_ref()).map(|x| x.receiving.is_some()).unwrap_or(false);
+            if mid { hit = true; }
+            mid
+        });
+        if hit { mon.borrow_mut().situations.insert("directed_burst_released_mid_filter", 1); }
+        e
+    } else { RunEnd::Stopped };
+    if end == RunEnd::Stopped {
+        let strat = if directed { Strategy::Eager } else { cfg.strat };
+        end = sim.run(strat, cfg.qp, &mut rng, 100_000, &|| false, &mut |_s| false);
+    }
     if end == RunEnd::Quiescent && heap_monitor { sim.settle(); }
     sim.observer = None;
     let root_fate = fates(&sim, st.pid).get("r").cloned();
@@ -451,4 +478,4 @@ pub const ASSUME: &[&str] = &[
     "a timeout is treated as possibly ready at elapsed == d and definitely ready at elapsed > d (the statement only bounds it from below)",
     "SimNet interleaving model (DESIGN §2.3)",
 ];
-pub const SITUATIONS: &[&str] = &["two_or_more_sources_ready_at_completion", "completed_on_reentry_after_filter_call", "higher_priority_source_preempted_running_filter", "completed_by_await", "completed_by_timeout", "completed_by_filter_receive", "completed_by_type_receive", "completed_by_non_first_source", "select_propagated_failure", "completed_with_clock_advanced", "leftover_sequences_nonempty"];
+pub const SITUATIONS: &[&str] = &["directed_burst_released_mid_filter", "two_or_more_sources_ready_at_completion", "completed_on_reentry_after_filter_call", "higher_priority_source_preempted_running_filter", "completed_by_await", "completed_by_timeout", "completed_by_filter_receive", "completed_by_type_receive", "completed_by_non_first_source", "select_propagated_failure", "completed_with_clock_advanced", "leftover_sequences_nonempty"];
